@@ -10,7 +10,8 @@ Request:  `run <nvars> <stmt> <stmt> …` where a statement token is one of
   `up:<y>:<x>:<i>:<atom>`   y = x{i = atom}
   `ca:<y>:<x>:<atom>`       y = x append atom
   `apo:<x>:<p>:<y>:<q>`     x[p] append= pop y[q]    (old x[p] is read before the pop)
-and rhs is `n` | `i<int>` | `v<var>` | `l<atom>,<atom>,…` | `r<atom>*<count>`.
+and rhs is `n` | `i<int>` | `v<var>` | `l<atom>,<atom>,…` | `r<atom>*<count>` | `d<key>=<atom>,…` (dict
+literal with integer keys).  An index in a path is a list index or, where the value is a dict, a key.
 Response: `<impl>\t<spec>\t<diag>`; impl/spec = `ok d1;d2;…` with one dump per statement,
 `+` (completed) or `!` (raised) followed by the canonical values of all variables joined by `|`;
 diag = the cost ledger `copied/pushes` after every statement. -/
@@ -32,6 +33,14 @@ def parseRhs (s : String) : Option Rhs :=
   if s.startsWith "l" then
     let body := (s.drop 1).toString
     if body.isEmpty then some (.list []) else ((body.splitOn ",").mapM parseAtom).map Rhs.list
+  else if s.startsWith "d" then
+    -- dict literal: `d<key>=<atom>,<key>=<atom>,…` (integer keys), `d` = empty dict
+    let body := (s.drop 1).toString
+    if body.isEmpty then some (.dict [])
+    else ((body.splitOn ",").mapM fun (e : String) =>
+      match e.splitOn "=" with
+      | [k, a] => do pure ((← k.toInt?), (← parseAtom a))
+      | _ => none).map Rhs.dict
   else if s.startsWith "r" then
     match ((s.drop 1).toString.splitOn "*") with
     | [a, n] => do pure (.rep (← parseAtom a) (← n.toNat?))
